@@ -57,7 +57,11 @@ LongTrailSpecs ==
     : pl \in {<<1, 2, 3>>, <<0, 0, 0, 0>>, Fill(3, 300)} } : ct \in {22, 23} }
   \cup { [ct |-> 23, ver |-> 771, len |-> 16640, wire |-> <<Lit(<<23>> \o BE16(771) \o BE16(16640)), FillPart(5, 16640), RepPart(171, LongTails[t])>>,
           total |-> 5 + 16640 + LongTails[t], cut |-> 5 + 16640 + LongTails[t]] : t \in 1..Len(LongTails) }
-SpecsDef == SetToSeq(SmallSpecs \cup LyingSpecs \cup BigSpecs \cup LongTrailSpecs)
+(* a header cut inside its length field, for every value of the byte that IS there: no verdict on a length that has not arrived *)
+HeaderCutSpecs ==
+  { [ct |-> ct, ver |-> 771, len |-> hi * 256 + 7, wire |-> <<Lit(<<ct>> \o BE16(771) \o BE16(hi * 256 + 7))>>, total |-> 5, cut |-> k]
+    : ct \in {22, 255}, hi \in 0..255, k \in {3, 4} }
+SpecsDef == SetToSeq(SmallSpecs \cup LyingSpecs \cup BigSpecs \cup LongTrailSpecs \cup HeaderCutSpecs)
 ASSUME TLCSet(1, SpecsDef)
 Specs == TLCGet(1)
 N == Len(Specs) * 3
